@@ -605,6 +605,23 @@ def useful(ops):
     return True
 
 
+def replay(prefix, seed=0):
+    """used by the replay of a failed / undecided deductive obligation: catalogue tables, every sequence of
+    length <= 1, 150 random sequences of length 2; -> (cases, failures whose clause starts with prefix)"""
+    rng = np.random.default_rng(seed + 77)
+    cases, bad = 0, []
+    todo = [(t, ops) for t in CATALOGUE for ops in sequences(1)]
+    for _ in range(150):
+        t = CATALOGUE[int(rng.integers(0, len(CATALOGUE)))]
+        todo.append((t, tuple(STATE_OPS[int(i)] for i in rng.integers(0, len(STATE_OPS), size=2))))
+    for t, ops in todo:
+        cases += 1
+        for clause, detail in run_case(t, ops, seed + cases):
+            if clause.startswith(prefix):
+                bad.append({'clause': clause, 'detail': detail, 'labels': t['labels'], 'ops': [list(o) for o in ops]})
+    return cases, bad
+
+
 def main(argv):
     if argv and argv[0] == '--case':
         case = json.loads(argv[1])
